@@ -6,6 +6,7 @@ Peek / Map / Filter, inner streams made while the pipeline runs, optional fresh 
 stream value.
 
     DYN src R0 XS OPS... fm G... || RUN || RUN ...
+    DYN srcv R0 XS1|XS2|... OPS... fm G... || RUN || RUN ...     (contents of the outer source per run; the last entry repeats)
 
 Model text: `Model.PipeDyn.consume` run after run on the SAME operator object, fresh world per run, printed in exactly the
 observation's format (compared by string equality, no projection).
@@ -78,21 +79,25 @@ def parseOps : Nat → List String → Option (List OOp × List String)
 
 structure DCase where
   r0 : Nat
-  xs : List Int
+  /-- contents of the outer source in run 1, 2, … (`src`: one entry; the last entry repeats) -/
+  xss : List (List Int)
   ops : List OOp
   g : GD
   runs : List Run
 
 def parseDyn (c : String) : Option DCase :=
   match splitAt "||" (words c) with
-  | ("DYN" :: "src" :: r0 :: xs :: rest) :: runs => do
+  | ("DYN" :: src :: r0 :: xs :: rest) :: runs => do
     let r0 ← r0.toNat?
-    let xs ← parseIntList xs
+    let xss ← if src == "src" then (parseIntList xs).map (fun l => [l])
+              else if src == "srcv" then (xs.splitOn "|").mapM parseIntList
+              else none
+    if xss.isEmpty then none
     let (ops, rest) ← parseOps 1000 rest
     let (g, rest) ← parseG 1000 rest
     if !rest.isEmpty then none
     let rs ← runs.mapM parseRun
-    pure { r0 := r0, xs := xs, ops := ops, g := g, runs := rs }
+    pure { r0 := r0, xss := xss, ops := ops, g := g, runs := rs }
   | _ => none
 
 /-! ### model text -/
@@ -107,16 +112,21 @@ def evTok : Event → String
 def fmtSeq (tr : List Event) : String :=
   if tr.isEmpty then "-" else ".".intercalate (tr.map evTok)
 
-/-- all materialisations in sequence on the same operator object; a fresh world per run -/
-def runAllDyn (obj : Obj) : List Run → List String
+/-- contents of the outer source in run `i` (0-based) -/
+def DCase.xsAt (d : DCase) (i : Nat) : List Int :=
+  (d.xss[i]?).getD (d.xss.getLastD [])
+
+/-- all materialisations in sequence on the same operator object; a fresh world per run; before run `i` the outer source's
+    contents become those of run `i` (`Obj.setContents`: the probe source reads them when it is opened) -/
+def runAllDyn (d : DCase) (obj : Obj) (i : Nat) : List Run → List String
   | [] => []
   | r :: rs =>
-    match ShpanVerif.Model.PipeDyn.consume 100000 r.consumer r.take obj { fault := r.fault } with
+    match ShpanVerif.Model.PipeDyn.consume 100000 r.consumer r.take (obj.setContents (d.xsAt i)) { fault := r.fault } with
     | (o, obj, w) =>
-      s!"{fmtOutcome o} | calls={w.calls} pre=0 | {fmtEvents w.trace} | seq={fmtSeq w.trace}" :: runAllDyn obj rs
+      s!"{fmtOutcome o} | calls={w.calls} pre=0 | {fmtEvents w.trace} | seq={fmtSeq w.trace}" :: runAllDyn d obj (i + 1) rs
 
 def modelTextDyn (d : DCase) : String :=
-  " || ".intercalate (runAllDyn (Obj.mk0 d.r0 d.xs d.ops d.g.eval) d.runs)
+  " || ".intercalate (runAllDyn d (Obj.mk0 d.r0 (d.xsAt 0) d.ops d.g.eval) 0 d.runs)
 
 /-! ### spec predicate (on the observation) -/
 
@@ -161,17 +171,17 @@ def Outcome.deliveredOf : Outcome → List V
   | .oof => []
 
 /-- verdict of one run -/
-def specRun (d : DCase) (r : Run) (o : ObsRun) (seq : Option (List String)) : Option String :=
+def specRun (d : DCase) (xs : List Int) (r : Run) (o : ObsRun) (seq : Option (List String)) : Option String :=
   let g := d.g.eval
-  let want := specOutcome r.take (flatSpec g (outerDen d.ops d.xs))
+  let want := specOutcome r.take (flatSpec g (outerDen d.ops xs))
   let wantTxt := fmtOutcome want
   let wantDel := (Outcome.deliveredOf want).map fmtV
   let gotTxt := (if o.ok then "ok" else "err:" ++ o.cls) ++ " " ++ o.delivered
   let pullsR0 := (((o.events.lookup d.r0).getD "").toList.filter (fun c => c == 'E')).length
   let bound : Nat :=
     match r.take with
-    | none => d.xs.length + 1
-    | some n => if n ≤ 0 then 0 else needPulls d.ops g n.toNat d.xs
+    | none => xs.length + 1
+    | some n => if n ≤ 0 then 0 else needPulls d.ops g n.toNat xs
   if o.pre != 0 then some "(a) effects before the terminal operation (pre != 0)"
   else if !obsBalanced o then some "(b) a resource's events are not (open emit* close)* [failed-open]"
   else
@@ -208,7 +218,7 @@ def specRun (d : DCase) (r : Run) (o : ObsRun) (seq : Option (List String)) : Op
 def specAll (d : DCase) : List Run → List ObsRun → List String → Nat → Option String
   | [], [], _, _ => none
   | r :: rs, o :: os, t :: ts, i =>
-    match specRun d r o (seqOf t) with
+    match specRun d (d.xsAt i) r o (seqOf t) with
     | some why => some s!"run {i}: {why}"
     | none => specAll d rs os ts (i + 1)
   | _, _, _, _ => some "the observation does not have one part per run"
